@@ -790,6 +790,33 @@ def image_header_length_formula(ctx, P):
     ctx.check(P + ':S05-14:image-header-length-formula', 'R-table', 'per opaque image-header variant, the constant subtracted by the parser equals the constant added by the writer',
               bool(read) and read == written and None not in read.values(), function=wb.path, table=dict(parser=read, writer=written),
               missing=None if read == written else 'parser %s, writer %s' % (read, written))
+    # the smallest header an opaque variant is written with is its constant (empty data): a lower bound that the parser puts on the
+    # announced length before it builds that variant must not lie above it, or the library cannot read what it writes
+    from rules.common import direct_cmp_switches, is_call_to
+    rdom_ = rb.dominators()
+    bounds = {}
+    for g, t in rb.switches():
+        kind, v = resolve_value(rb, t['o'], rdefs)
+        if kind == 'rv' and v['k'] == 'bin' and v['op'] in ('Ge', 'Gt', 'Lt', 'Le'):
+            sides = [resolve_value(rb, o, rdefs) for o in v['o']]
+            for a, c in ((0, 1), (1, 0)):
+                if sides[c][0] == 'const' and isinstance(sides[c][1], int) and has_origin(rb.operand_origins(v['o'][a]), r'call:.*read_le_u16$'):
+                    # normalise to "length >= B is required"
+                    op = v['op'] if a == 0 else {'Ge': 'Le', 'Gt': 'Lt', 'Lt': 'Gt', 'Le': 'Ge'}[v['op']]
+                    B = sides[c][1] + (1 if op in ('Gt', 'Le') else 0)
+                    bounds[g] = B
+    too_high = {}
+    for j, k, s_ in rb.constructs(r'user_attribute::ImageHeader(V1)?$'):
+        if s_['r']['v'] != 'Unknown':
+            continue
+        name = s_['r']['adt'].split('::')[-1] + '::Unknown'
+        c = read.get(name)
+        for g, B in bounds.items():
+            if c is not None and g in rdom_.get(j, ()) and B > c:
+                too_high[name] = (B, c)
+    ctx.check(P + ':S05-14:image-header-lower-bound', 'R-table', 'the parser asks no opaque image-header variant for more octets than the writer emits for it with empty data',
+              not too_high and bool(bounds), function=rb.path, table={k: dict(required=v[0], smallest_written=v[1]) for k, v in too_high.items()} or dict(bounds=sorted(bounds.values())),
+              missing=None if not too_high else 'announced length must be >= %d, but %s with empty data is written with length %d: the library refuses what it wrote' % (list(too_high.values())[0][0], list(too_high)[0], list(too_high.values())[0][1]))
     # a variant whose writer emits a CONSTANT length (the JPEG header is written as the fixed prefix `10 00 01 01`) may only be
     # built from a header whose parsed length was compared with that constant: otherwise a longer header is accepted, its surplus
     # octets silently become image data and it is written back (and hashed) with another length octet
